@@ -52,6 +52,10 @@ CHECKS = {
   text="Structural necessary conditions of 'rewrites preserve the transformation': rewrites assign only the component list (herald maps / mode count untouched, effect analysis), run on copies with copy-on-write components, swap compression blocks every mode of every later component kind (exhaustive per-kind field coverage, inclusive ranges), never grows the list, merges only unblocked swaps as (earlier then later) and skips the merged one; non-adjacent beam splitters become swap / oriented adjacent splitter / inverse swap, recursively inside groups; group flattening is complete and in order; copies share no container. Equality of U_full and amplitudes before/after is not claimed.",
   note="Trusted: groups never nest (C02); copy/deepcopy semantics. Several rules recognise the current idiom of the rewriters; an unrecognised redesign gives ANALYSIS-ERROR.",
   tech=TECH + "effect analysis (fields written), exhaustive dispatch coverage, structural pairing / ordering checks on the rewriters", ref="DESIGN.md §3 R-C, R-H, R-M5; §4 C09"),
+ "C17": dict(
+  text="Store-idiom classification decides for all result contents that the four mappings add the weights of coinciding images (many-to-one key => guarded accumulation, per input row); guard dominance decides that amplitude-valued results are refused before any work; structural role checks decide that array, nested dictionary, pair indexing and the recombined result all use rows = inputs (in self.inputs order) and columns = outputs in one fixed order, with the per-mode functions being the documented ones. Idempotence and weight arithmetic are not claimed.",
+  note="Trusted: dict insertion order; stable iteration order of an unmodified set within a call.",
+  tech=TECH + "store-idiom classification, CFG guard dominance, index-role comparison between constructor / accessor / recombination", ref="DESIGN.md §3 R-G, R-D, R-M4, R-L2; §4 C17"),
 }
 NA = {}
 
